@@ -225,3 +225,27 @@ Example snap_ahead_tick_needed :
   applied restart_node = 3 /\
   applied (nd (on_tick (mk_env xf 300 0 30 [] 0) restart_node)) = 2.
 Proof. vm_compute. split; reflexivity. Qed.
+
+(* C04_install_keeps_acknowledged / C09_install_keeps_suffix: node 3 of g3 holds entries 1..3 and has
+   applied 1; a snapshot at position 2 whose two entries it holds leaves entry 3 (already
+   acknowledged to the leader) in place; a snapshot whose entries it does not hold replaces the log *)
+Definition d_entry : entry := mkEntry (noop_cmd 10) 0 0.
+Definition held_snap : snapshot :=
+  mkSnap [] 0 (nth 1 (log (node_of 3 g3)) d_entry) (nth 0 (log (node_of 3 g3)) d_entry) [1; 2; 3] 50.
+Example install_keeps_suffix_example :
+  let n := node_of 3 g3 in
+  let e := mk_env xc 300 0 DEFAULT_BUDGET [] 0 in
+  let p := SData (Good held_snap) 0 50 true true in
+  term n <= 1 /\ recv_snapshot p (sr n) = Some (Good held_snap) /\ s_ver held_snap <= self_ver n /\
+  applied n < eidx (s_e1 held_snap) /\ consec (log n) /\ snap_kept held_snap (log n) = true /\
+  map eidx (log n) = [1; 2; 3] /\
+  map eidx (log (nd (on_message e 1 (AESnap 1 3 p) n))) = [1; 2; 3] /\
+  applied (nd (on_message e 1 (AESnap 1 3 p) n)) = 2 /\
+  snap_kept other_snap (log n) = false /\
+  map eterm (log (nd (on_message e 1 (AESnap 1 3 (SData (Good other_snap) 0 50 true true)) n))) = [7; 7].
+Proof.
+  cbv zeta. split; [vm_compute; discriminate|]. split; [vm_compute; reflexivity|].
+  split; [vm_compute; discriminate|]. split; [vm_compute; reflexivity|].
+  split; [apply consecb_ok; vm_compute; reflexivity|].
+  vm_compute. repeat split; reflexivity.
+Qed.
